@@ -6,6 +6,7 @@ package node
 // verif_c41_engine_test.go (identical copy of the one in harness/agreement).
 
 import (
+	"fmt"
 	"testing"
 
 	"github.com/algorand/go-algorand/config/bounds"
@@ -80,13 +81,32 @@ func c41nodeBounds() c41bounds {
 	}
 }
 
+// c41nodeNests: {"block":{"txns":[ {"dt":{"itx":[ ... ]}} ]}} with the inner-transaction
+// recursion n levels deep; beyond the decoder's 255-call depth budget it must be refused.
+func c41nodeNests() map[string][]byte {
+	out := map[string][]byte{}
+	for _, n := range []int{8, 120, 127, 128, 250, 256, 300, 5000, 50000} {
+		b := []byte{0x81, 0xa5, 'b', 'l', 'o', 'c', 'k', 0x81, 0xa4, 't', 'x', 'n', 's', 0x91}
+		for i := 0; i < n; i++ {
+			b = append(b, 0x81, 0xa2, 'd', 't', 0x81, 0xa3, 'i', 't', 'x', 0x91)
+		}
+		b = append(b, 0x80)
+		label := fmt.Sprintf("block with inner transactions nested %d deep (map form)", n)
+		if n >= 256 {
+			label = "must-reject: " + label
+		}
+		out[label] = b
+	}
+	return out
+}
+
 func TestVerif_C41_node(t *testing.T) {
 	r := ve.NewRun("C41", "exploration")
 	p := c41newPart(r, "node", c41nodeBounds())
 	p.run([]c41target{
 		{proto: new(netPrioResponse), pairs: true},
 		{proto: new(netPrioResponseSigned), pairs: true},
-		{proto: new(rpcs.EncodedBlockCert)},
+		{proto: new(rpcs.EncodedBlockCert), hostile: c41nodeNests()},
 	})
 	n := r.Finish(ve.Coverage{
 		Rule:       "part node: netPrioResponse, netPrioResponseSigned, rpcs.EncodedBlockCert — same seeds, mutation classes (T,B,H,K,N,P,O) and oracle as part agreement",
